@@ -98,6 +98,19 @@ def gen_case(rnd):
     if any(disconnected(rd) for rd in resdefs.values()):
         L = min(L, 3)    # disconnected patterns have combinatorially many placements
     seq = [rnd.choice(sorted(resdefs)) for _ in range(L)]
+    # multi-residue mapping: two residue types are mapped only together, as a pair of bonded residues X-Y (pattern and target
+    # block span two residues); X and Y have no mapping of their own, so stray X / Y residues stay unmapped
+    pair = None
+    pair_at = None
+    if nres >= 2 and rnd.random() < 0.35:
+        X, Y = rnd.sample(sorted(resdefs), 2)
+        pair = {'x': X, 'y': Y, 'link': [rnd.choice(sorted(resdefs[X]['mp'])), rnd.choice(sorted(resdefs[Y]['mp']))]}
+        if L < 2:
+            L = 2
+            seq = seq + [Y]
+        for _ in range(rnd.randint(1, 2)):
+            pair_at = rnd.randrange(L - 1)
+            seq[pair_at], seq[pair_at + 1] = X, Y
     nkeys = sum(len(resdefs[s]['anames']) for s in seq)
     keys = rnd.sample(range(5 * nkeys + 5), nkeys)
     if rnd.random() < 0.7:
@@ -118,11 +131,19 @@ def gen_case(rnd):
     for ri in range(1, L):
         rj = rnd.randrange(ri) if rnd.random() < 0.3 else ri - 1
         inter.append([[ri, rnd.choice(resdefs[seq[ri]]['anames'])], [rj, rnd.choice(resdefs[seq[rj]]['anames'])]])
+    if pair:
+        # every X directly followed by Y is joined by the pair's link bond (most of the time)
+        for ri in range(1, L):
+            if seq[ri - 1] == pair['x'] and seq[ri] == pair['y'] and rnd.random() < 0.85:
+                inter[ri - 1] = [[ri, pair['link'][1]], [ri - 1, pair['link'][0]]]
     if L > 2 and rnd.random() < 0.3:
         ri, rj = rnd.sample(range(L), 2)
         inter.append([[ri, rnd.choice(resdefs[seq[ri]]['anames'])], [rj, rnd.choice(resdefs[seq[rj]]['anames'])]])
-    return {'resdefs': resdefs, 'seq': seq, 'resids': resids, 'atoms': atoms, 'inter': inter,
-            'tag': rnd.randrange(10 ** 9)}
+    out = {'resdefs': resdefs, 'seq': seq, 'resids': resids, 'atoms': atoms, 'inter': inter,
+           'tag': rnd.randrange(10 ** 9)}
+    if pair:
+        out['pair'] = pair
+    return out
 
 
 def build(case):
@@ -154,8 +175,40 @@ def build(case):
             for x, y, z in zip(bn, bn[1:], bn[2:]):
                 bb.add_interaction('angles', [x, y, z], ['2', '120', '25'])
         ffb.blocks[name] = bb
-        mappings[name] = Mapping(ba, bb, {a: dict(d) for a, d in rd['mp'].items()}, {}, ff_from=ffa, ff_to=ffb, extra=(),
-                                 names=(name,))
+        if not (case.get('pair') and name in (case['pair']['x'], case['pair']['y'])):
+            mappings[name] = Mapping(ba, bb, {a: dict(d) for a, d in rd['mp'].items()}, {}, ff_from=ffa, ff_to=ffb, extra=(),
+                                     names=(name,))
+    if case.get('pair'):
+        pr = case['pair']
+        ba = Block(force_field=ffa)
+        ba.nrexcl = 1
+        bb = Block(force_field=ffb)
+        bb.nrexcl = 1
+        mp = {}
+        for loc, rname in enumerate((pr['x'], pr['y'])):
+            rd = case['resdefs'][rname]
+            t = 'xy'[loc]
+            for an in rd['anames']:
+                ba.add_node('%s:%s' % (t, an), atomname=an, resname=rname, resid=loc + 1, atype='x', charge_group=1, element=an[0])
+            for u, v in rd['edges']:
+                ba.add_edge('%s:%s' % (t, u), '%s:%s' % (t, v))
+            bn = rd['bnames']
+            for i, b_ in enumerate(bn):
+                bb.add_node('%s:%s' % (t, b_), atomname=b_, resname=rname, resid=loc + 1, atype='P%d' % i, charge_group=i + 1, charge=float(i))
+            for x, y in zip(bn, bn[1:]):
+                bb.add_edge('%s:%s' % (t, x), '%s:%s' % (t, y))
+                bb.add_interaction('bonds', ['%s:%s' % (t, x), '%s:%s' % (t, y)], ['1', '0.3', '100'])
+            if rd['angles']:
+                for x, y, z in zip(bn, bn[1:], bn[2:]):
+                    bb.add_interaction('angles', ['%s:%s' % (t, q) for q in (x, y, z)], ['2', '120', '25'])
+            for a, d in rd['mp'].items():
+                mp['%s:%s' % (t, a)] = {'%s:%s' % (t, k): w for k, w in d.items()}
+        ba.add_edge('x:' + pr['link'][0], 'y:' + pr['link'][1])
+        lastx = 'x:' + case['resdefs'][pr['x']]['bnames'][-1]
+        firsty = 'y:' + case['resdefs'][pr['y']]['bnames'][0]
+        bb.add_edge(lastx, firsty)
+        bb.add_interaction('bonds', [lastx, firsty], ['1', '0.4', '200'])
+        mappings['%s+%s' % (pr['x'], pr['y'])] = Mapping(ba, bb, mp, {}, ff_from=ffa, ff_to=ffb, extra=(), names=(pr['x'], pr['y']))
     mol = Molecule(force_field=ffa, nrexcl=1)
     key = {}
     for k, ri, an in case['atoms']:
@@ -175,7 +228,10 @@ def placements_of(case, mol):
     pattern edges intra-residue <=> matched edges intra-residue)."""
     import networkx as nx
     out = []
+    pair = case.get('pair')
     for rname, rd in sorted(case['resdefs'].items()):
+        if pair and rname in (pair['x'], pair['y']):
+            continue
         P = nx.Graph()
         P.add_nodes_from(rd['mp'])
         P.add_edges_from((u, v) for u, v in rd['edges'] if u in rd['mp'] and v in rd['mp'])
@@ -188,6 +244,26 @@ def placements_of(case, mol):
             return mol.nodes[g1]['resid'] == mol.nodes[g2]['resid']
         for m in match.induced_isos(mol, P, node_ok, edge_ok):
             out.append((min(m.values()), rname, dict(m)))
+    if pair:
+        P = nx.Graph()
+        for loc, rname in enumerate((pair['x'], pair['y'])):
+            rd = case['resdefs'][rname]
+            t = 'xy'[loc]
+            for a in rd['mp']:
+                P.add_node('%s:%s' % (t, a), an=a, rn=rname, loc=loc)
+            P.add_edges_from(('%s:%s' % (t, u), '%s:%s' % (t, v)) for u, v in rd['edges'] if u in rd['mp'] and v in rd['mp'])
+        P.add_edge('x:' + pair['link'][0], 'y:' + pair['link'][1])
+
+        def node_ok2(g, p):
+            d = mol.nodes[g]
+            q = P.nodes[p]
+            return d['atomname'] == q['an'] and d['resname'] == q['rn'] and d['element'] == q['an'][0]
+
+        def edge_ok2(g1, g2, p1, p2):
+            # an edge inside one residue of the pattern must lie inside one residue of the molecule, and vice versa
+            return (mol.nodes[g1]['resid'] == mol.nodes[g2]['resid']) == (P.nodes[p1]['loc'] == P.nodes[p2]['loc'])
+        for m in match.induced_isos(mol, P, node_ok2, edge_ok2):
+            out.append((min(m.values()), '+PAIR', dict(m)))
     return out
 
 
@@ -201,15 +277,17 @@ def expected(case, mol):
     particles = []
     resid = 0
     for pi, (_, rname, atoms) in enumerate(pl):
-        rd = case['resdefs'][rname]
-        resid += 1
-        for b in rd['bnames']:
-            cons = {atoms[a]: w[b] for a, w in rd['mp'].items() if b in w}
-            spawned = not cons
-            if spawned:
-                cons = {k: 0 for k in atoms.values()}
-            particles.append({'p': pi, 'bead': b, 'resname': rname, 'cons': cons, 'spawned': spawned,
-                              'olds': [mol.nodes[k]['resid'] for k in cons], 'resid': resid})
+        parts = [(rname, '')] if rname != '+PAIR' else [(case['pair']['x'], 'x:'), (case['pair']['y'], 'y:')]
+        for loc, (rn, pre) in enumerate(parts):
+            rd = case['resdefs'][rn]
+            resid += 1
+            for b in rd['bnames']:
+                cons = {atoms[pre + a]: w[b] for a, w in rd['mp'].items() if b in w}
+                spawned = not cons
+                if spawned:
+                    cons = {k: 0 for k in atoms.values()}
+                particles.append({'p': pi, 'bead': b, 'resname': rn, 'cons': cons, 'spawned': spawned, 'loc': loc,
+                                  'olds': [mol.nodes[k]['resid'] for k in cons], 'resid': resid})
     return pl, particles, ambiguous, overlap
 
 
@@ -227,7 +305,8 @@ def check_synthetic(case, b):
     pl, particles, ambiguous, overlap = expected(case, mol)
     incons = bool(cap.of_type('inconsistent-data'))
     unmapped_warn = bool(cap.of_type('unmapped-atom'))
-    info = {'placements': len(pl), 'particles': len(particles), 'overlap': overlap, 'ambiguous': ambiguous}
+    info = {'placements': len(pl), 'particles': len(particles), 'overlap': overlap, 'ambiguous': ambiguous,
+            'pair_placements': sum(1 for x in pl if x[1] == '+PAIR')}
     nodes = list(out.nodes)
     covered = set()
     for p in particles:
@@ -262,14 +341,21 @@ def check_synthetic(case, b):
     exp_edges = set()
     exp_bonds = []
     exp_angles = []
-    for pi, ns in byp.items():
-        rd = case['resdefs'][pl[pi][1]]
-        for x, y in zip(ns, ns[1:]):
-            exp_edges.add(frozenset((x, y)))
-            exp_bonds.append((x, y))
-        if rd['angles']:
-            for x, y, z in zip(ns, ns[1:], ns[2:]):
-                exp_angles.append((x, y, z))
+    loc_of = {n: p.get('loc', 0) for n, p in zip(nodes, particles)}
+    for pi, ns_all in byp.items():
+        names_ = [pl[pi][1]] if pl[pi][1] != '+PAIR' else [case['pair']['x'], case['pair']['y']]
+        groups = [[n for n in ns_all if loc_of[n] == loc] for loc in range(len(names_))]
+        for rn, ns in zip(names_, groups):
+            rd = case['resdefs'][rn]
+            for x, y in zip(ns, ns[1:]):
+                exp_edges.add(frozenset((x, y)))
+                exp_bonds.append((x, y))
+            if rd['angles']:
+                for x, y, z in zip(ns, ns[1:], ns[2:]):
+                    exp_angles.append((x, y, z))
+        if len(groups) == 2:
+            exp_edges.add(frozenset((groups[0][-1], groups[1][0])))
+            exp_bonds.append((groups[0][-1], groups[1][0]))
     n_inter = 0
     for (n1, p1), (n2, p2) in itertools.combinations(zip(nodes, particles), 2):
         if p1['p'] == p2['p'] or p1['spawned'] or p2['spawned']:
@@ -446,6 +532,8 @@ def run_case(params):
             b.feat({'placements': info['placements'], 'overlap_cases': int(info['overlap']), 'ambiguous_order_cases': int(info['ambiguous']),
                     'uncovered_atom_cases': int(bool(info['uncovered_nonH'])),
                     'inter_placement_edges': info.get('inter_placement_edges', 0),
+                    'multi_residue_mapping_cases': int(bool(case.get('pair'))),
+                    'multi_residue_placements': info.get('pair_placements', 0),
                     'spawned_particle_cases': int(any(not any(bn in w for w in rd['mp'].values()) for rd in case['resdefs'].values() for bn in rd['bnames'])),
                     'zero_weight_only_particle_cases': int(any(all(w[bn] == 0 for w in rd['mp'].values() if bn in w) and any(bn in w for w in rd['mp'].values())
                                                                for rd in case['resdefs'].values() for bn in rd['bnames']))})
